@@ -554,7 +554,15 @@ def run(tier, seed):
             b = D.Normal(np.zeros((d, 1)), 2.0, lower_bounds=l2, upper_bounds=U)
             dist = D.BayesRule([a, b])
         qq, pp = q.copy(), p.copy()
-        dist.corrector(qq, pp)
+        try:
+            dist.corrector(qq, pp)
+        except Exception as e:
+            sr.case({"flavour": flavour, "q": q.ravel().tolist()}, nontrivial=False)
+            sr.disagree({"flavour": flavour}, "a reflected state", repr(e), "corrector raised")
+            findings.append(Finding("C01", f"corrector of a {flavour} target raised {e!r}", {"kind": "corrector-raised", "flavour": flavour},
+                                    {"oracle": "reflect", "stimulus": {"flavour": flavour, "lb": None if L is None else L.ravel().tolist(),
+                                                                       "ub": None if U is None else U.ravel().tolist(), "q": q.ravel().tolist(), "p": p.ravel().tolist()}}))
+            continue
         metas.append((flavour, L, U, q, p, qq, pp))
         reqs.append(f"c01.reflect {opt(None if L is None else vhex(L))} {opt(None if U is None else vhex(U))} {vhex(q)} {vhex(p)}")
     answers = lean_batch(reqs)
